@@ -1,5 +1,5 @@
-use std::collections::HashMap;
 use std::collections::hash_map::Entry;
+use std::collections::{HashMap, HashSet};
 use std::fmt::Display;
 use std::pin::pin;
 
@@ -197,6 +197,18 @@ impl InMemoryStoreInner {
 
         // header range is already internally verified against itself in `P2p::get_unverified_header_ranges`
         self.verify_against_neighbours(prev_exists.then_some(head), next_exists.then_some(tail))?;
+
+        // Check the whole batch before touching any table, so that a rejected batch
+        // leaves the store unchanged.
+        let mut batch_hashes = HashSet::with_capacity(headers.as_ref().len());
+        for header in headers.as_ref() {
+            let hash = header.hash();
+
+            if self.headers.contains_key(&hash) || !batch_hashes.insert(hash) {
+                // TODO: Remove this when we implement type-safe validation on insertion.
+                return Err(StoreInsertionError::HashExists(hash).into());
+            }
+        }
 
         for header in headers.into_iter() {
             let hash = header.hash();
